@@ -151,12 +151,13 @@ fn proc_subpath<Fd: AsRawFd>(fd: Fd) -> Result<String, Error> {
     let fd = fd.as_raw_fd();
     if fd == libc::AT_FDCWD {
         Ok("cwd".to_string())
-    } else if fd.is_positive() {
+    } else if fd >= 0 {
+        // NOTE: 0 is a perfectly valid file descriptor number.
         Ok(format!("fd/{}", fd))
     } else {
         Err(ErrorImpl::InvalidArgument {
             name: "fd".into(),
-            description: "must be positive or AT_FDCWD".into(),
+            description: "must be non-negative or AT_FDCWD".into(),
         })?
     }
 }
